@@ -28,7 +28,9 @@ GLUE_LINES = ["10 IF A THEN 10 ELSE 20", "20 IF X>1 THEN PRINT 20000+20000 ELSE 
               # a reserved word followed by a name that, run together with it, spells another reserved word across the seam
               # (FOR+EM.. and OR+EM.. contain REM, GO+TOTAL contains GOTO, O+NEXT..): the leftmost word still wins
               "90 FOR EM=1 TO 3:PRINT EM;:NEXT EM", "100 EM=5:IF EM=1 OR EM=5 THEN PRINT 1", "110 A=B XOR EMU", "120 PRINT A OR EMPTY",
-              "130 FOR EMIT=2 TO 3:NEXT", "140 IF A THEN B=C OR EM ELSE B=2", "150 FOR I=1 TO N:NEXT", "160 GO TO TALLY"]
+              "130 FOR EMIT=2 TO 3:NEXT", "140 IF A THEN B=C OR EM ELSE B=2", "150 FOR I=1 TO N:NEXT", "160 GO TO TALLY",
+              # string literals side by side in a PRINT list
+              '170 PRINT "AB" "CD"', '180 FOR I=1 TO 2:PRINT "<" "" ">" I;:NEXT I', '190 IF I>2 THEN PRINT "" "!"', '200 PRINT "a" "b" "c";"d" "e"']
 
 
 def segments(line):
@@ -167,6 +169,10 @@ def variant(rng, line):
     segs = segments(rest)
     for k, (kind, text) in enumerate(segs):
         if kind == "code":
+            if text.strip() == "" and 0 < k < len(segs) - 1 and segs[k - 1][0] not in ("code", "remark") and segs[k + 1][0] not in ("code", "remark"):
+                # nothing but blanks between two string literals: the blanks are optional there too ("AB""CD" is two literals)
+                out += rng.choice(["", "", " ", "  "])
+                continue
             out += vary_code(rng, text)
         elif kind == "remark":
             if text.upper().startswith("REM") and rng.random() < 0.5:
